@@ -59,6 +59,12 @@ Definition hp_ok (p : hparams) : bool :=
   (hp_magic p <? W) && (hp_shl p <? 64) && (hp_shr p <? 64) && (hp_tuple_seed p <? W) && (hp_variant_seed p <? W).
 Definition combine (p : hparams) : N -> N -> N := combine_with (hp_magic p) (hp_shl p) (hp_shr p).
 
+(* how a smart pointer came to refer to its pointee (the OWNERSHIP FORM): made by make_unique / make_shared, a copy of
+   another shared_ptr, adopted from `new`, a NON-OWNING alias (aliasing constructor with an empty owner: get() != nullptr,
+   use_count() == 0), an owning alias (aliasing constructor with a live owner), converted from a unique_ptr, moved from
+   another pointer.  hash(p) is hash( *p ) and p == q compares get(): neither looks at the ownership form *)
+Inductive own : Type := OwnMake | OwnCopy | OwnNew | OwnAlias | OwnOwningAlias | OwnFromUnique | OwnMoved.
+
 Section Value.
 Variable leaf : Type.
 
@@ -67,7 +73,7 @@ Inductive value : Type :=
 | VTuple (l : list value)          (* std::tuple<...> *)
 | VPair (a b : value)              (* std::pair *)
 | VVariant (k : nat) (v : value)  (* std::variant holding alternative k *)
-| VPtr (v : value)                 (* unique_ptr / shared_ptr to v (non-null) *)
+| VPtr (o : own) (v : value)       (* unique_ptr / shared_ptr to v (non-null), in ownership form o *)
 | VObj (l : list value)            (* a tuple_operators<T> type: its as_tuple() *)
 | VValueless.                      (* a std::variant that is valueless_by_exception() *)
 
@@ -82,7 +88,7 @@ Fixpoint hash (x : value) : N :=
   | VTuple l => fold_left (fun seed v => combine hp seed (hash v)) l (hp_tuple_seed hp)   (* hash_combine_tuple<0> *)
   | VPair a b => combine hp (hash a) (hash b)                          (* seed = hash(first); combine second *)
   | VVariant _ v => combine hp (hp_variant_seed hp) (hash v)                   (* the active alternative; the index is not hashed *)
-  | VPtr v => hash v                                                (* hash of the pointee *)
+  | VPtr _ v => hash v                                              (* hash of the pointee, whatever the ownership form *)
   | VObj l => fold_left (fun seed v => combine hp seed (hash v)) l (hp_tuple_seed hp)   (* t.hash() = hash(as_tuple(t)) *)
   | VValueless => hp_variant_seed hp      (* no get_if<I> finds an alternative: the seed is returned as it is *)
   end.
@@ -97,7 +103,7 @@ Fixpoint veqb (x y : value) : bool :=
   | VTuple l, VTuple m => all2 veqb l m
   | VPair a b, VPair c d => veqb a c && veqb b d
   | VVariant k v, VVariant j w => (k =? j)%nat && veqb v w
-  | VPtr v, VPtr w => veqb v w     (* pointee equality; C++ compares addresses, which implies this *)
+  | VPtr _ v, VPtr _ w => veqb v w (* pointee equality; C++ compares addresses (get()), which implies this; ownership plays no part *)
   | VObj l, VObj m => all2 veqb l m (* as_tuple(x) == as_tuple(y) *)
   | VValueless, VValueless => true  (* index() == index() (both variant_npos) && valueless *)
   | _, _ => false
@@ -122,6 +128,20 @@ Fixpoint vlt2 (x y : value) : bool * bool :=
   end.
 
 Definition vltb (x y : value) : bool := fst (vlt2 x y).
+
+(* the same value with every pointer's ownership form replaced (f old form = new form) *)
+Fixpoint retag (f : own -> own) (x : value) : value :=
+  match x with
+  | VLeaf a => VLeaf a
+  | VTuple l => VTuple (map (retag f) l)
+  | VPair a b => VPair (retag f a) (retag f b)
+  | VVariant k v => VVariant k (retag f v)
+  | VPtr o v => VPtr (f o) (retag f v)
+  | VObj l => VObj (map (retag f) l)
+  | VValueless => VValueless
+  end.
+(* all ownership forms forgotten *)
+Definition erase_own (x : value) : value := retag (fun _ => OwnMake) x.
 
 (* the member tuple *)
 Definition members (x : value) : list value :=
@@ -176,6 +196,8 @@ Arguments VPtr {leaf}.
 Arguments VObj {leaf}.
 Arguments VValueless {leaf}.
 Arguments members {leaf}.
+Arguments retag {leaf}.
+Arguments erase_own {leaf}.
 Arguments HHash {leaf}.
 Arguments HSet {leaf}.
 Arguments HAssign {leaf}.
